@@ -10,7 +10,7 @@ TB_COMMON = [
 PROPS = {}
 
 PROPS["C17"] = {
-    "modules": ["Platypus.Properties.C17", "Platypus.Properties.C17Chain", "Platypus.Properties.C17Tree", "Platypus.Properties.C17Sorted"],
+    "modules": ["Platypus.Properties.C17", "Platypus.Properties.C17Chain", "Platypus.Properties.C17Tree", "Platypus.Properties.C17Sorted", "Platypus.Properties.FrontEnd"],
     "theorems": None,
     "rule": "lookup: every text over {a, newline, e-acute} up to length 6 (quick) / 8 (thorough) x every offset -2..len+2, plus random byte strings (invalid UTF-8, CR, NUL) x boundary and random offsets; "
             "tree positions: generated statement trees (every expression and statement form) x 4 layout families: on the real parser's tree every stored position must carry the line/column of its offset and the source must spell that node's token there "
@@ -103,7 +103,7 @@ _mk("C12",
     extra_tb=[TB_FLOAT, "grok, xmlquery, dateparse/time zone table (funcs.TimestampHandle), Go time.Format, obfuscate (oracles)"], exhaustive=False)
 
 _mk("C03",
-    ["Platypus.Properties.C03", "Platypus.Properties.C02Facts", "Platypus.Properties.C03Scope"],
+    ["Platypus.Properties.C03", "Platypus.Properties.C02Facts", "Platypus.Properties.C03Scope", "Platypus.Properties.FrontEnd"],
     rule="exhaustive branch selection (if/elif/elif/else over 16 conditions of every type and truthiness x every subset of the blocks empty); random grammar-directed control-flow programs (typed generator, mostly valid, empty blocks included): nested if/elif/else over all truthiness classes, three-clause for with each clause optional, "
          "for-in over list/string/map/point values, break/continue at any depth, assignments and compound assignments to new/outer/shadowing names, probes as the only effects; "
          "map iteration order is existential (all orders of up to 10 binary / 4 six-way iterations tried); every case also self-checks the refinement statement (semStmts = abs(runStmts)) on its top-level block; strict",
@@ -125,7 +125,7 @@ _mk("C13",
     extra_tb=[TB_FLOAT])
 
 _mk("C14",
-    ["Platypus.Properties.C14", "Platypus.Properties.C14Prefix", "Platypus.Properties.C14PrefixV2"],
+    ["Platypus.Properties.C14", "Platypus.Properties.C14Prefix", "Platypus.Properties.C14PrefixV2", "Platypus.Properties.FrontEnd"],
     rule="v1: 12 endless/nested empty-bodied loop programs (incl. inside a callee), 5 hand-written loops whose loop clause has a visible effect with continue/break in nested ifs and use() in the body, "
          "2 programs with use() nested inside a larger expression (known finding), and N random loop-bearing two-script programs; v2: 6 endless loops, 5 loops with continue/break and a visible loop clause, N random v2 programs; "
          "each x every poll index k = 1..min(polls of the uninterrupted run, 40 quick / 200 thorough): "
@@ -209,7 +209,7 @@ _mk("C01",
     extra_tb=[TB_FLOAT, "engines (grok, xmlquery, dateparse, strconv, regexp, encoding/json) are oracles: answered by the real libraries, assumed not to panic"])
 
 _mk("C06",
-    ["Platypus.Properties.C06", "Platypus.Properties.C06Facts"],
+    ["Platypus.Properties.C06", "Platypus.Properties.C06Facts", "Platypus.Properties.FrontEnd"],
     rule="exhaustive: every ordered pair of the 14 binary operators in both nestings (paren node exactly where the table requires) and with unary operands x 3 layouts; the 24 slice forms x 4 layouts; "
          "random statement trees (depth <= 4) over every expression and statement form (calls with positional/named arguments, index/attribute/slice chains, list/map literals, all assignment kinds, if/elif/else, the 8 for shapes, for-in) "
          "printed with only the parentheses held as paren nodes in 4 layout families (canonical, tight, random line ends at every SPACE_EOLS place with CR/blank variation, comments); "
